@@ -278,6 +278,16 @@ def check_c14(out, tier):
         rnd.shuffle(R)
         if len(R) != len(T):
             continue
+        if rnd.random() < .3:
+            # nodes selected one by one (shape-map node selectors), among them nodes that are only ever objects: their shape is
+            # made of incoming constraints alone
+            allnodes = sorted({t for s_, p_, o_ in T for t in (s_, o_) if t[0] == "IRI" and p_ != M.RDF_TYPE})
+            if allnodes:
+                sm = []
+                for x in rnd.sample(allnodes, rnd.randint(1, min(4, len(allnodes)))):
+                    sm.append({"label": M.EX + "shapes/L%d" % rnd.randint(0, 1), "labelSpelling": "bracket", "spelling": "bracket",
+                               "kind": "node", "node": list(x)})
+                c = with_cfg(c, mode="shapemap", items=sm, targets=[])
         items.append({"id": c["id"], "rel": "inverse", "a": with_cfg(c, inverse=True), "b": with_cfg(c, inverse=False),
                       "c": with_cfg(with_graph(c, R), inverse=False)})
     campaign(out, "C14", items, mine)
